@@ -235,6 +235,7 @@ class Models:
         R(r"^core::num::<impl u(16|32|64)>::to_(be|le)_bytes$", m_to_bytes, "uN::to_be_bytes / to_le_bytes: the value's bytes, most / least significant first")
         R(r"^core::num::<impl u(16|32|64)>::from_(be|le)_bytes$", lambda ci: None, "from_*_bytes (unmodelled)")
         R(r"^core::convert::num::<impl core::convert::From<u\d+> for [ui](\d+|size)>::from$", m_widen, "lossless integer widening")
+        R(r"^core::convert::num::<impl core::convert::From<bool> for [ui](\d+|size)>::from$", m_widen, "uN::from(bool): 0 or 1")
         R(r"^<&?u8 as core::ops::bit::(Shr|Shl|BitAnd|BitOr|BitXor)<.*>>::\w+$", m_ref_binop, "operators on &u8 forward to the u8 operator")
         R(r"^core::time::Duration::from_millis$", lambda ci: dur(ci.args[0], 1), "Duration::from_millis")
         R(r"^core::time::Duration::from_secs$", lambda ci: dur(ci.args[0], 1000), "Duration::from_secs")
@@ -255,6 +256,7 @@ class Models:
         R(r"^core::result::Result::<T, E>::inspect$|^core::option::Option::<T>::inspect$", m_inspect, "Result/Option::inspect(f): f(&value) on Ok / Some, then the value itself unchanged")
         R(r"^core::option::Option::<T>::filter$", m_opt_filter, "Option::filter(p): Some(x) if p(&x) else None")
         R(r"^core::option::Option::<T>::as_ref$", m_opt_as_ref, "Option::as_ref: Some(&x) for Some(x), None for None")
+        R(r"^core::ops::range::RangeInclusive::<Idx>::new$", lambda ci: ("adt", "core::ops::range::RangeInclusive", 0, "RangeInclusive", (ci.args[0], ci.args[1], FALSE)), "RangeInclusive::new(a, b) is a..=b")
         R(r"^core::hint::must_use$", lambda ci: ci.args[0], "hint::must_use is the identity")
         R(r"^log::max_level$", lambda ci: ("loglevel",), "log::max_level(): the global maximum level (analysed at both extremes)")
         R(r"^core::cmp::PartialOrd::le$", m_le, "PartialOrd::le; Level <= max_level decided by the engine's log setting")
@@ -958,6 +960,24 @@ def m_iter_next(ci):
         facts.append((("app", "Lt", (item, it[4][1])), 1))
         facts.append((("app", "Ge", (item, it[4][0])), 1))
     def exhausted(ci2):
+        # accumulators of the loop that just ran to exhaustion: acc == fold(iterator, init, step) (mireval.arrive_loop_header)
+        for a in ci2.st.stack:
+            for key, rec in list(a.cvisits.items()):
+                if isinstance(key, tuple) and key[0] == "fold" and rec[1] is None and ci2.st.frames.get(a.fid, {}).get(key[2]) == rec[2]:
+                    its1 = set()
+                    from mireval import collect_items as _ci
+                    _ci(rec[3], its1)
+                    if its1 <= {it}:
+                        ci2.st.frames[a.fid][key[2]] = rec[3]      # exactly one iteration ran: the value it computed
+                    continue
+                if isinstance(key, tuple) and key[0] == "fold" and rec[1] not in (None, False):
+                    init, step, wv = rec[:3]
+                    its = set()
+                    from mireval import collect_items, mentions as _m
+                    collect_items(step, its)
+                    fr0 = ci2.st.frames.get(a.fid, {})
+                    if its == {it} and fr0.get(key[2]) == wv:
+                        fr0[key[2]] = ("app", "fold", (it, init, ("template", wv, step)))
         # loop summaries over this iterator (mireval.seq_summary) are complete now: one group per item
         for fr in ci2.st.frames.values():
             for l, v in list(fr.items()):
